@@ -199,6 +199,9 @@ func Key(password, salt []byte, N, r, p, keyLen int) ([]byte, error) {
 	if r <= 0 || p <= 0 {
 		return nil, errors.New("scrypt: parameters must be > 0")
 	}
+	if keyLen <= 0 {
+		return nil, errors.New("scrypt: keyLen must be > 0")
+	}
 	if uint64(r)*uint64(p) >= 1<<30 || r > maxInt/128/p || r > maxInt/256 || N > maxInt/128/r {
 		return nil, errors.New("scrypt: parameters are too large")
 	}
